@@ -82,11 +82,26 @@ def fail(node, msg):
 
 
 # ------------------------------------------------------------------------------------------------ printing
+CARRIERS = {
+    "R": dict(scope="R", leb="Rleb", ltb="Rltb", eqb="Reqb", b2="b2R", min="Rmin", max="Rmax", clip="Rclip", ofZ="IZR", zero="0%R"),
+    "Q": dict(scope="Q", leb="Qleb", ltb="Qltb", eqb="Qeqb", b2="b2Q", min="Qmin", max="Qmax", clip="Qclip", ofZ="inject_Z", zero="0%Q"),
+}
+CFG = dict(CARRIERS["R"])
+
+
+def set_carrier(name):
+    """the carrier real-valued quantities are printed in: 'R' (Coq reals) or 'Q' (rationals, for models written over Q)"""
+    CFG.clear()
+    CFG.update(CARRIERS[name])
+
+
 def num_text(q: Fraction, ty):
     if ty == "Z":
         if q.denominator != 1:
             raise TranslateError(f"non-integral literal {q} in integer context")
         return f"({q.numerator})%Z"
+    if CFG["scope"] == "Q":
+        return f"({q.numerator} # {q.denominator})%Q"
     if q.denominator == 1:
         return f"({q.numerator})%R"
     return f"({q.numerator} / {q.denominator})%R"
@@ -100,7 +115,7 @@ def to_sc(v, ty, node=None):
         if v.ty == ty:
             return v
         if v.ty == "Z" and ty == "R":
-            return Sc("R", f"(IZR {v.t})")
+            return Sc("R", f"({CFG['ofZ']} {v.t})")
     fail(node, f"cannot use {v!r} as {ty}")
 
 
@@ -126,10 +141,12 @@ def sc_bin(op, a, b, node):
     x, y = to_sc(a, ty, node), to_sc(b, ty, node)
     if op not in ARITH[ty]:
         fail(node, f"operator {op} on {ty}")
-    return Sc(ty, f"({x.t} {ARITH[ty][op]} {y.t})%{ty}")
+    return Sc(ty, f"({x.t} {ARITH[ty][op]} {y.t})%{CFG['scope'] if ty == 'R' else 'Z'}")
 
 
 def sc_cmp(op, a, b, node):
+    if isinstance(a, Num) and isinstance(b, Num):
+        return Static({"<=": a.q <= b.q, "<": a.q < b.q, ">=": a.q >= b.q, ">": a.q > b.q, "==": a.q == b.q, "!=": a.q != b.q}[op])
     tys = {x.ty for x in (a, b) if isinstance(x, Sc)}
     if tys == {"B"} and op in ("==", "!="):
         t = f"(Bool.eqb {a.t} {b.t})"
@@ -140,7 +157,7 @@ def sc_cmp(op, a, b, node):
     if not tys:
         ty = "R"
     x, y = to_sc(a, ty, node), to_sc(b, ty, node)
-    le, lt, eq = {"R": ("Rleb", "Rltb", "Reqb"), "Z": ("Z.leb", "Z.ltb", "Z.eqb")}[ty]
+    le, lt, eq = {"R": (CFG["leb"], CFG["ltb"], CFG["eqb"]), "Z": ("Z.leb", "Z.ltb", "Z.eqb")}[ty]
     t = {"<=": f"({le} {x.t} {y.t})", "<": f"({lt} {x.t} {y.t})", ">=": f"({le} {y.t} {x.t})", ">": f"({lt} {y.t} {x.t})",
          "==": f"({eq} {x.t} {y.t})", "!=": f"(negb ({eq} {x.t} {y.t}))"}[op]
     return Sc("B", t)
@@ -213,6 +230,7 @@ class Executor:
         self.prims.update(prims or {})
         self.opaque = opaque or {}
         self.depth = 0
+        self.dyn = 0
 
     # ---- expressions
     def dotted(self, n):
@@ -249,9 +267,15 @@ class Executor:
                 fail(n, f"unknown field of {base.name}")
             if isinstance(base, Vec) and n.attr == "shape":
                 return Static(("len", base))
+            if isinstance(base, (Sc, Num)) and n.attr == "ndim":
+                return Num(0)
+            if isinstance(base, Vec) and n.attr == "ndim":
+                return Num(1)
             fail(n, "unsupported attribute")
-        if isinstance(n, (ast.Tuple, ast.List)):
+        if isinstance(n, ast.Tuple):
             return tuple(self.expr(e, sc) for e in n.elts)
+        if isinstance(n, ast.List):
+            return [self.expr(e, sc) for e in n.elts]
         if isinstance(n, ast.UnaryOp):
             v = self.expr(n.operand, sc)
             if isinstance(n.op, ast.USub):
@@ -315,7 +339,7 @@ class Executor:
         if isinstance(n, ast.Subscript):
             v = self.expr(n.value, sc)
             s = n.slice
-            if isinstance(v, tuple) and isinstance(s, ast.Constant) and isinstance(s.value, int):
+            if isinstance(v, (tuple, list)) and isinstance(s, ast.Constant) and isinstance(s.value, int):
                 return v[s.value]
             if isinstance(v, Static) and isinstance(v.v, tuple) and v.v and v.v[0] == "len" and isinstance(s, ast.Constant) and s.value == 0:
                 return Sc("Z", f"(Z.of_nat (length {materialise(v.v[1])}))")
@@ -329,8 +353,13 @@ class Executor:
             if is_scalar(v) and isinstance(s, ast.Constant) and s.value is None:
                 x = v if isinstance(v, Sc) else to_sc(v, "R", n)
                 return Vec.base(f"[{x.t}]", x.ty)
+            if isinstance(v, Vec) and v.ety == "O" and isinstance(s, ast.Tuple) and len(s.elts) == 2:
+                rows, cols = self.expr(s.elts[0], sc), self.expr(s.elts[1], sc)
+                if not (isinstance(rows, Vec) and rows.ety == "Z" and materialise(rows).startswith("(kiota ") and isinstance(cols, Vec) and cols.ety == "Z"):
+                    fail(n, "unsupported advanced indexing")
+                return lift(lambda row, c: Sc("R", f"(nth (Z.to_nat {c.t}) {row.t} {CFG['zero']})"), [v, cols], n)
             if isinstance(v, Vec) and isinstance(s, ast.Constant) and isinstance(s.value, int) and s.value >= 0:
-                d = {"R": "0%R", "Z": "0%Z", "B": "false"}[v.ety]
+                d = {"R": CFG["zero"], "Z": "0%Z", "B": "false"}[v.ety]
                 return Sc(v.ety, f"(nth {s.value} {materialise(v)} {d})")
             fail(n, "unsupported subscript")
         if isinstance(n, ast.Lambda):
@@ -375,6 +404,18 @@ class Executor:
 
     # ---- calls
     def call(self, n, sc):
+        # leaf.at[idx].set(value)
+        f = n.func
+        if (isinstance(f, ast.Attribute) and f.attr == "set" and isinstance(f.value, ast.Subscript)
+                and isinstance(f.value.value, ast.Attribute) and f.value.value.attr == "at" and len(n.args) == 1 and not n.keywords):
+            leaf = self.expr(f.value.value.value, sc)
+            idx = self.expr(f.value.slice, sc)
+            val = self.expr(n.args[0], sc)
+            if not (isinstance(leaf, Vec) and is_scalar(idx) and is_scalar(val)):
+                fail(n, "unsupported indexed update")
+            i = to_sc(idx, "Z", n)
+            v = val if (isinstance(val, Sc) and val.ty == leaf.ety) else to_sc(val, leaf.ety, n)
+            return Vec.base(f"(upd {materialise(leaf)} (Z.to_nat {i.t}) {v.t})", leaf.ety)
         # method calls on values: x.astype(float), x.sum(), x.mean()
         if isinstance(n.func, ast.Attribute) and self.dotted(n.func) not in self.prims:
             recv_name = self.dotted(n.func.value)
@@ -451,7 +492,7 @@ class Executor:
                     if isinstance(x, Num):
                         return x
                     if x.ty == "B":
-                        return Sc("R", f"(b2R {x.t})")
+                        return Sc("R", f"({CFG['b2']} {x.t})")
                     return to_sc(x, "R", n)
                 if target in ("int", "jnp.int32", "jnp.int64"):
                     if isinstance(x, Num):
@@ -503,7 +544,9 @@ class Executor:
                 if not (isinstance(c, Sc) and c.ty == "B"):
                     fail(s, "condition is neither static nor a boolean scalar")
                 s1, s2 = dict(sc), dict(sc)
+                self.dyn += 1
                 r1, r2 = self.block(s.body, s1), self.block(s.orelse, s2)
+                self.dyn -= 1
                 if (r1 is None) != (r2 is None):
                     # `if c: return a` followed by the rest: treat the rest as the else branch
                     if r1 is not None and not s.orelse:
@@ -520,6 +563,33 @@ class Executor:
                             fail(s, f"{k} bound in one branch only")
                         sc[k] = self.select(c, s1[k], s2[k], s)
                 continue
+            if (isinstance(s, ast.Expr) and isinstance(s.value, ast.Call) and isinstance(s.value.func, ast.Attribute)
+                    and s.value.func.attr == "append" and len(s.value.args) == 1 and not s.value.keywords):
+                lst = self.expr(s.value.func.value, sc)
+                if not isinstance(lst, list):
+                    fail(s, "append to a non-list")
+                if self.dyn:
+                    fail(s, "list mutation under a dynamic condition")
+                lst.append(self.expr(s.value.args[0], sc))
+                continue
+            if isinstance(s, ast.For) and not s.orelse:
+                it = s.iter
+                if isinstance(it, ast.Call) and isinstance(it.func, ast.Name) and it.func.id == "zip" and not it.keywords:
+                    seqs = [self.expr(a, sc) for a in it.args]
+                    if not all(isinstance(q, (list, tuple)) for q in seqs) or len({len(q) for q in seqs}) != 1:
+                        fail(s, "zip over sequences of unknown or different lengths")
+                    items = [tuple(q[i] for q in seqs) for i in range(len(seqs[0]))]
+                else:
+                    seq = self.expr(it, sc)
+                    if not isinstance(seq, (list, tuple)):
+                        fail(s, "loop over a non-static sequence")
+                    items = list(seq)
+                for item in items:
+                    self.bind(s.target, item, sc)
+                    r = self.block(s.body, sc)
+                    if r is not None:
+                        fail(s, "return inside a loop")
+                continue
             if isinstance(s, ast.Raise):
                 return None if False else fail(s, "raise reached")
             fail(s, "unsupported statement")
@@ -530,7 +600,7 @@ class Executor:
             sc[target.id] = v
             return
         if isinstance(target, (ast.Tuple, ast.List)):
-            if not isinstance(v, tuple) or len(v) != len(target.elts):
+            if not isinstance(v, (tuple, list)) or len(v) != len(target.elts):
                 fail(target, "cannot unpack")
             for t, x in zip(target.elts, v):
                 self.bind(t, x, sc)
@@ -540,7 +610,9 @@ class Executor:
 
 # ------------------------------------------------------------------------------------------------ primitives
 def reduce_vec(kind, v, n):
-    if not isinstance(v, Vec) or v.ety != "R":
+    if isinstance(v, Vec) and v.ety == "B" and kind == "sum":
+        return Sc("Z", f"(kcount {materialise(v)})")
+    if not isinstance(v, Vec) or v.ety != "R" or CFG["scope"] != "R":
         fail(n, "reduction of a non-real vector")
     return Sc("R", f"({'kmean' if kind == 'mean' else 'ksum'} {materialise(v)})")
 
@@ -564,6 +636,8 @@ def _unop(name_r):
     def f(ex, n, args, kwargs):
         if len(args) != 1 or kwargs:
             fail(n, "arity")
+        if CFG["scope"] != "R":
+            fail(n, "transcendental function outside the real carrier")
         return lift(lambda x: Sc("R", f"({name_r} {to_sc(x, 'R', n).t})"), args, n)
     return f
 
@@ -581,7 +655,7 @@ def _binfn(rname, zname=None):
             tys = {v.ty for v in (x, y) if isinstance(v, Sc)}
             if tys == {"Z"} and zname and not any(isinstance(v, Num) and v.q.denominator != 1 for v in (x, y)):
                 return Sc("Z", f"({zname} {to_sc(x, 'Z', n).t} {to_sc(y, 'Z', n).t})")
-            return Sc("R", f"({rname} {to_sc(x, 'R', n).t} {to_sc(y, 'R', n).t})")
+            return Sc("R", f"({CFG[rname]} {to_sc(x, 'R', n).t} {to_sc(y, 'R', n).t})")
         return lift(g, args, n)
     return f
 
@@ -593,7 +667,7 @@ def _p_clip(ex, n, args, kwargs):
             a.append(kwargs[k])
     if len(a) != 3:
         fail(n, "clip arity")
-    return lift(lambda x, lo, hi: Sc("R", f"(Rclip {to_sc(x, 'R', n).t} {to_sc(lo, 'R', n).t} {to_sc(hi, 'R', n).t})"), a, n)
+    return lift(lambda x, lo, hi: Sc("R", f"({CFG['clip']} {to_sc(x, 'R', n).t} {to_sc(lo, 'R', n).t} {to_sc(hi, 'R', n).t})"), a, n)
 
 
 def _p_where(ex, n, args, kwargs):
@@ -676,6 +750,37 @@ def _p_split(ex, n, args, kwargs):
     return tuple(Sc("K", f"(ks {k.t} {cnt} {i})") for i in range(cnt))
 
 
+def _p_tree_map(ex, n, args, kwargs):
+    """jax.tree.map(f, *trees): every pytree argument is modelled as ONE leaf (f is applied leaf-wise by JAX)"""
+    if kwargs or len(args) < 2 or not isinstance(args[0], Closure):
+        fail(n, "tree.map form")
+    return ex.invoke(args[0], list(args[1:]), {}, n)
+
+
+def _p_arange(ex, n, args, kwargs):
+    if kwargs or len(args) != 1 or not is_scalar(args[0]):
+        fail(n, "arange form")
+    return Vec.base(f"(kiota {to_sc(args[0], 'Z', n).t})", "Z")
+
+
+def _p_vmap(ex, n, args, kwargs):
+    """jax.vmap(f): f is either a batch-level oracle of the specification (returned unchanged) or an inline function that is
+    applied pointwise"""
+    if kwargs or len(args) != 1:
+        fail(n, "vmap with axes")
+    f = args[0]
+    if isinstance(f, Prim):
+        return f
+    fail(n, "vmap of an unsupported function")
+
+
+def _p_argmax(ex, n, args, kwargs):
+    ax = kwargs.get("axis")
+    if len(args) != 1 or not (isinstance(ax, Num) and ax.q == -1) or not (isinstance(args[0], Vec) and args[0].ety == "O"):
+        fail(n, "argmax form")
+    return lift(lambda row: Sc("Z", f"(kargmax {row.t})"), args, n)
+
+
 def _p_error_if(ex, n, args, kwargs):
     return args[0]
 
@@ -689,15 +794,17 @@ BUILTIN_PRIMS = {
     "jnp.exp": Prim(_unop("exp")), "jnp.abs": Prim(_unop("Rabs")), "jnp.sqrt": Prim(_unop("sqrt")),
     "jnp.sin": Prim(_unop("sin")), "jnp.cos": Prim(_unop("cos")), "jnp.log": Prim(_unop("ln")),
     "jnp.square": Prim(_p_square),
-    "jnp.minimum": Prim(_binfn("Rmin", "Z.min")), "jnp.maximum": Prim(_binfn("Rmax", "Z.max")),
+    "jnp.minimum": Prim(_binfn("min", "Z.min")), "jnp.maximum": Prim(_binfn("max", "Z.max")),
     "jnp.clip": Prim(_p_clip), "jnp.where": Prim(_p_where), "lax.select": Prim(_p_where), "lax.cond": Prim(_p_cond),
     "jnp.mean": Prim(_p_mean), "jnp.sum": Prim(_p_sum), "jnp.concatenate": Prim(_p_concatenate),
     "lax.scan": Prim(_p_scan), "jr.split": Prim(_p_split), "jax.random.split": Prim(_p_split),
-    "eqx.error_if": Prim(_p_error_if), "jnp.isfinite": Prim(_p_isfinite),
+    "eqx.error_if": Prim(_p_error_if), "jax.tree.map": Prim(_p_tree_map), "jax.tree_util.tree_map": Prim(_p_tree_map),
+    "jnp.arange": Prim(_p_arange), "jax.vmap": Prim(_p_vmap), "jnp.argmax": Prim(_p_argmax),
+    "jax.lax.stop_gradient": Prim(_p_identity), "lax.stop_gradient": Prim(_p_identity), "jnp.isfinite": Prim(_p_isfinite),
     "jnp.logical_or": Prim(lambda ex, n, a, k: lift(lambda x, y: ex.bbin("orb", x, y, n), a, n)),
     "jnp.logical_and": Prim(lambda ex, n, a, k: lift(lambda x, y: ex.bbin("andb", x, y, n), a, n)),
     "jnp.logical_not": Prim(lambda ex, n, a, k: lift(lambda x: ex.bnot(x, n), a, n)),
-    "jnp.pi": Sc("R", "PI"),
+    "jnp.pi": Sc("R", "PI"), "float": Static("float"), "int": Static("int"), "bool": Static("bool"),
 }
 
 
@@ -711,10 +818,14 @@ def find_function(path: Path, cls: str | None, func: str):
         if len(cs) != 1:
             raise TranslateError(f"{path}: class {cls} not found")
         body = cs[0].body
-    fs = [n for n in body if isinstance(n, ast.FunctionDef) and n.name == func]
-    if len(fs) != 1:
-        raise TranslateError(f"{path}: function {func} not found in {cls or 'module'}")
-    return fs[0], hashlib.sha256(src.encode()).hexdigest()[:16]
+    node = None
+    for part in func.split("/"):
+        fs = [n for n in body if isinstance(n, ast.FunctionDef) and n.name == part]
+        if len(fs) != 1:
+            raise TranslateError(f"{path}: function {func} not found in {cls or 'module'}")
+        node = fs[0]
+        body = node.body
+    return node, hashlib.sha256(src.encode()).hexdigest()[:16]
 
 
 def run_function(ex: Executor, fn: ast.FunctionDef, bindings: dict, module_scope=None):
